@@ -6,6 +6,8 @@ stdlib only."""
 import sys, os, json, subprocess, hashlib, time, re, tempfile, shutil, fnmatch
 
 VERIF = os.path.dirname(os.path.dirname(os.path.abspath(__file__)))
+# evidence/ and replays/ normally live in /verif; runs against a changed scratch tree (tools/mutation_run.py) are pointed elsewhere so that they never touch the committed evidence
+OUT_ROOT = os.environ.get("VERIF_OUT", VERIF)
 sys.path.insert(0, os.path.join(VERIF, "tools"))
 import build
 from registry import PROPS
@@ -152,7 +154,7 @@ def check(prop_id, tier="quick", seed=0):
     tot = dict(states=0, transitions=0, evaluations=0, distinct=0)
     samples = []
     exhaustive = True
-    replay_dir = os.path.join(VERIF, "replays", prop_id)
+    replay_dir = os.path.join(OUT_ROOT, "replays", prop_id)
     try:
         for leg in P["legs"]:
             exe, res, secs = run_leg(prop_id, leg, tier, seed, workdir)
@@ -225,8 +227,8 @@ def check(prop_id, tier="quick", seed=0):
           "assumptions": P["assumptions"], "wall_s": round(wall, 2), "violations": len(confirmed),
           "repo_head": sh(["git", "-C", REPO, "rev-parse", "HEAD"]).stdout.decode().strip(),
           "repo_dirty": bool(sh(["git", "-C", REPO, "status", "--porcelain", "--untracked-files=no"]).stdout.strip())}
-    os.makedirs(os.path.join(VERIF, "evidence"), exist_ok=True)
-    json.dump(ev, open(os.path.join(VERIF, "evidence", prop_id + ".json"), "w"), indent=1)
+    os.makedirs(os.path.join(OUT_ROOT, "evidence"), exist_ok=True)
+    json.dump(ev, open(os.path.join(OUT_ROOT, "evidence", prop_id + ".json"), "w"), indent=1)
     seen = set()
     for f, signature, rp in known:
         if f["id"] in seen: continue
